@@ -30,7 +30,7 @@ ASSUMPTIONS = ["memory rows are observed through the simulator's access to lib.m
 def _spec(draw, tier):
     dw = draw(st.sampled_from([8, 16, 32, 32, 64]))
     g = draw(st.sampled_from([None] + [x for x in (8, 16, 32, 64) if x <= dw]))
-    size = draw(st.sampled_from([1, 2, 2, 4, 4, 8, 8, 16, 32, 64, 256]))
+    size = draw(st.sampled_from([1, 2, 2, 4, 4, 8, 8, 16, 32, 64, 256, 2048]))
     if draw(st.integers(0, 19)) == 0:
         size = draw(st.sampled_from([3, 0, 6]))
     init_mode = draw(st.sampled_from(["none", "short", "full", "full"]))
@@ -136,7 +136,8 @@ def check(spec, stats):
                     raise Violation("C15/read-data", f"{where}: dat_r={got:#x} at the acknowledge of a read of word "
                                     f"{st_['req_prev']['adr']}, model holds {st_['read_exp']:#x}")
             # memory image: addressed row now, everything periodically
-            rows = range(depth) if (t % 4 == 0 or t == spec["cycles"] - 1) else {cur["adr"], st_["req_prev"]["adr"] if st_["req_prev"] else 0}
+            full_every = 4 if depth <= 64 else 64
+            rows = range(depth) if (t % full_every == 0 or t == spec["cycles"] - 1) else {cur["adr"], st_["req_prev"]["adr"] if st_["req_prev"] else 0}
             for r in rows:
                 got = ctx.get(mem.data[r])
                 if got != image[r]:
